@@ -1136,8 +1136,10 @@ func (m *Nitro) LoadFromDisk(dir string, concurr int, callb ItemCallback) (*Snap
 				for {
 					itm, err := r.ReadItem()
 					if err != nil {
+						// Give up on this shard only; the remaining shards
+						// must still be taken off the channel.
 						errors[shard] = err
-						return
+						break loop
 					}
 
 					if itm == nil {
@@ -1231,8 +1233,10 @@ func (m *Nitro) LoadFromDisk(dir string, concurr int, callb ItemCallback) (*Snap
 					for {
 						itm, err := r.ReadItem()
 						if err != nil {
+							// Give up on this shard only; the remaining shards
+							// must still be taken off the channel.
 							errors[shard] = err
-							return
+							break loop
 						}
 
 						if itm == nil {
